@@ -21,6 +21,11 @@ TRUSTED = [
     "functions (tolerance applied on the implementation-side comparison only, never in a theorem)",
     "pygmo: proposes only vectors inside get_bounds() (every logged evaluation is checked), champions/population "
     "are individuals that were evaluated (checked: every reported individual is matched to a logged evaluation)",
+    "modelled by hand, tied by correspondence only: which objects ParameterValues.__init__ accepts for `values` and "
+    "whether it types them Multi or Simple (pv_accepts, the n = 0 case of norm): \"_\" and what equals it are kept, an "
+    "empty container is ParameterType.Simple and kept, a non-Sequence is refused, `values == \"_\"` on a numpy array "
+    "with other than one element raises; python's isinstance relation between the containers driven (str, list, "
+    "tuple, numpy.ndarray, collections.UserList, generator) and the classes the source names (isinst)",
 ]
 
 CLAUSES = {1: "bounds_layout", 2: "conversion_log_slices", 3: "outside_declared_bounds", 4: "reported_not_applied",
@@ -239,7 +244,7 @@ def container_scope_layouts(r):
     return out
 
 
-def gen_history(r, layout=None, n_ops=None):
+def gen_history(r, layout=None, n_ops=None, p_kind=0.0):
     """A history on shared objects: several problem constructions from the same ParameterValues objects and the
     same processor, interleaved with get_bounds / convert_to_parameters / fitness / update_processor on any of
     the problems built so far."""
@@ -248,10 +253,10 @@ def gen_history(r, layout=None, n_ops=None):
         if r.random() < 0.5:
             # the kind whose arrays are views on the kept boundaries: a logarithmic vector with its own pairs
             layout[r.randrange(len(layout))] = (r.choice([2, 3, 4]), True, True)
-    case = make_case(r, layout)
+    case = make_case(r, layout, p_kind=p_kind)
     comps = []
     for v in case["vars"]:
-        w = 1 if v["n"] is None else v["n"]
+        w = 1 if spec_n(v) is None else v["n"]
         b = v["bnd"]
         pairs = [(b[1], b[2])] * w if b[0] == "shared" else [tuple(x) for x in b[1]]
         for lo, hi in pairs:
@@ -307,8 +312,12 @@ def gen_histories(ctx: Ctx, n_hist: int, calib2s: list):
     if not ctx.quick:
         # exhaustive small scope: every list of 1..2 variables over the six kinds, one fixed-shape history each
         cases += [gen_history(r, lay, n_ops=5) for lay in small_scope_layouts(2)]
+    # the same objects declared in other containers: a tuple kept for several constructions, a refused empty one
+    cases += [gen_history(r, lay, n_ops=6) for lay in (KIND_LAYOUTS[0], KIND_LAYOUTS[4], KIND_LAYOUTS[5])]
+    k = 0
     while len(cases) < n_hist:
-        cases.append(gen_history(r))
+        k += 1
+        cases.append(gen_history(r, p_kind=0.5 if k % 3 == 0 else 0.0))
     for k, runs in enumerate(calib2s):
         cases.append(gen_calib2(r, HIST_LAYOUTS[k % len(HIST_LAYOUTS)], runs))
     return cases
@@ -505,12 +514,12 @@ def initial_config(case):
     cfg = []
     for v in case["vars"]:
         z = (0.0).hex()
-        cfg.append([v["key"], "s", [z]] if v["n"] is None else [v["key"], "v", [z] * v["n"]])
+        cfg.append([v["key"], "s", [z]] if spec_n(v) is None else [v["key"], "v", [z] * v["n"]])
     return cfg + [["m0.fixed", "s", [SEVEN]], ["m1.fixed", "s", [SEVEN]]]
 
 
 def declared_snapshot(case):
-    return dict(vars=[dict(key=v["key"], n=v["n"], log=v["log"], bnd=v["bnd"]) for v in case["vars"]],
+    return dict(vars=[dict(key=v["key"], n=spec_n(v), log=v["log"], bnd=v["bnd"]) for v in case["vars"]],
                 proc=initial_config(case), own=[])
 
 
@@ -538,7 +547,9 @@ def emit_hist(case, obs, snaps: dict) -> str:
             hop = f"HProbe {core.cnat(st['pid'])} {PKIND[st['op']]} ({emit_probe(strip_bystanders(st))})"
         steps.append(f"{{| h_op := {hop}; h_snap := {name} |}}")
     vs = core.clist(emit_var(v) for v in case["vars"])
-    return f"{{| hc_vars := {vs}; hc_proc := {emit_config(initial_config(case))}; hc_steps := {core.clist(steps)} |}}"
+    decl = core.clist(emit_pval(kind_name(v), 1 if v["n"] is None else v["n"]) for v in case["vars"])
+    return (f"({decl}, {{| hc_vars := {vs}; hc_proc := {emit_config(initial_config(case))}; "
+            f"hc_steps := {core.clist(steps)} |}})")
 
 
 def emit_hist_file(pairs) -> str:
@@ -546,13 +557,13 @@ def emit_hist_file(pairs) -> str:
     body = ";\n  ".join(emit_hist(c, o, snaps) for c, o in pairs)
     defs = "".join(f"Definition {name} : snapshot := {txt}.\n" for txt, name in snaps.items())
     return ("From Coq Require Import ZArith QArith List String.\n"
-            "From PyxelV Require Import Model.Decision Model.DecisionSrc.\n"
+            "From PyxelV Require Import Model.Decision Model.DecisionSrc Model.DecisionKinds.\n"
             "From PyxelGen Require Import Gen_C10.\n"
             "Import ListNotations.\nLocal Open Scope Q_scope.\n"
             + defs +
-            f"Definition hists : list c10_hist := [\n  {body}\n].\n"
-            "Eval vm_compute in hist_mismatches src_desc hists.\n"
-            "Eval vm_compute in hist_details hists.\n")
+            f"Definition hists : list (list pval * c10_hist) := [\n  {body}\n].\n"
+            "Eval vm_compute in khist_mismatches src_desc hists.\n"
+            "Eval vm_compute in khist_details hists.\n")
 
 
 # ------------------------------------------------------------------------------------------ decision inputs
@@ -681,6 +692,7 @@ def correspondence(ctx: Ctx, cases, tag="c", workers=8):
         for p in o.get("probes", []):
             ctx.dist("probe", p["tag"])
         lc = layout_class(c)
+        ctx.dist("containers_of_case", lc["containers"])
         ctx.dist("vector_before_scalar", lc["vector_before_scalar"])
         for v in c["vars"]:
             ctx.dist("var_kind", ("scalar" if v["n"] is None else "vector") + ("/log" if v["log"] else "/lin")
@@ -691,6 +703,7 @@ def correspondence(ctx: Ctx, cases, tag="c", workers=8):
         ctx.count("histories")
         ctx.dist("mode", c["mode"])
         ctx.dist("history_builds", sum(1 for st in steps if st["op"] == "build"))
+        ctx.dist("history_containers", layout_class(c)["containers"])
         ctx.dist("history_has_log_vector_per_component",
                  any(v["n"] is not None and v["log"] and v["bnd"] and v["bnd"][0] == "per" for v in c["vars"]))
         ctx.dist("history_reuses_earlier_problem_after_later_build", any(
@@ -972,7 +985,15 @@ META = dict(
         "tiny calibrations and Calibration.run_calibration called twice on the same Calibration are run, and every "
         "logged evaluation, champion, best individual and final application of the champions' parameters is judged "
         "inside Coq against the specification; the generated description is run inside Coq against the same "
-        "observations."),
+        "observations. Containers: the translator also reads, for _set_bound, the parameter count of __init__, "
+        "convert_to_parameters and update_processor, the if/elif chain on var.values as a decision tree over the type "
+        "tests the source makes, labels every leaf by executing its path (scalar / vector / raise / other), and reads "
+        "which outer container convert_values returns; C10_same_type_tests (vm_compute over 7 kinds of container x 0/1/2 "
+        "placeholders) + C10_containers_classified_alike / _same_variables / _walks_agree prove for EVERY container with "
+        "ANY number of placeholders and every list of variables that the four walks take the same branch - the one the "
+        "declaration means - or the declaration is refused. The declarations driven through the implementation come "
+        "as \"_\", list, tuple, str, numpy array, UserList and generator through the Python API and as YAML text "
+        "through pyxel.configuration.loads."),
     level_note=(
         "Trusted: Coq kernel + vm_compute; real-number axioms + classic for C10_in_bounds / C10_src_in_bounds only (the "
         "structural and history theorems are closed); translator/c10.py (fail-closed; its output is also evaluated "
